@@ -1,3 +1,4 @@
+import RdsProofs.C14RoundTrip
 import RdsProofs.Reach
 import RdsProofs.C14Proofs
 /-!
@@ -14,6 +15,9 @@ including NULL, returns false, fires no callback and leaves the state untouched.
 -- THEOREM: RDS.C14_decoded
 -- THEOREM: RDS.C14_equiv
 -- THEOREM: RDS.C14_reject
+-- THEOREM: RDS.C14_roundtrip18
+-- THEOREM: RDS.C14_roundtrip16
+-- THEOREM: RDS.C14_string_reaches
 -- THEOREM: RDS.hexNum4
 -- THEOREM: RDS.hexVal_digit
 namespace RDS
